@@ -1,38 +1,24 @@
-// Command harness runs the correspondence / direct-oracle part of one property check.
-package main
+package hx
 
 import (
 	"flag"
 	"fmt"
 	"os"
-	"sort"
-
-	"verifharness/internal/hx"
 )
 
-type runFn func(r *hx.Result, cfg Config)
-
+// Config is what ./check passes to a property harness.
 type Config struct {
-	Tier   string
+	Tier   string // quick | thorough
 	Seed   int64
 	Work   string // scratch directory for this run (removed by ./check)
 	Search bool   // failing-input search mode (after a broken obligation / correspondence)
 	Replay string
 }
 
-var registry = map[string]runFn{}
-
-func main() {
-	if len(os.Args) < 2 {
-		var ids []string
-		for k := range registry {
-			ids = append(ids, k)
-		}
-		sort.Strings(ids)
-		fmt.Println("usage: harness <property> [-tier quick|thorough] [-seed n] [-out file] [-work dir] [-search]; have:", ids)
-		os.Exit(2)
-	}
-	prop := os.Args[1]
+// Main is the entry point of every harness binary (harness/cmd/<cxx>/main.go):
+//
+//	func main() { hx.Main("C12", run) }
+func Main(prop string, fn func(r *Result, cfg Config)) {
 	fs := flag.NewFlagSet("harness", flag.ExitOnError)
 	tier := fs.String("tier", "quick", "")
 	seed := fs.Int64("seed", 1, "")
@@ -40,18 +26,14 @@ func main() {
 	work := fs.String("work", "", "")
 	search := fs.Bool("search", false, "")
 	replay := fs.String("replay", "", "")
-	fs.Parse(os.Args[2:])
-	fn, ok := registry[prop]
-	if !ok {
-		fmt.Fprintln(os.Stderr, "unknown property", prop)
-		os.Exit(2)
-	}
+	fs.Parse(os.Args[1:])
 	if *work == "" {
+		os.MkdirAll("/verif/.work", 0o755)
 		d, _ := os.MkdirTemp("/verif/.work", "h-")
 		*work = d
 		defer os.RemoveAll(d)
 	}
-	res := hx.New(prop, *tier, *seed)
+	res := New(prop, *tier, *seed)
 	fn(res, Config{Tier: *tier, Seed: *seed, Work: *work, Search: *search, Replay: *replay})
 	if *out != "" {
 		if err := res.Write(*out); err != nil {
